@@ -24,7 +24,10 @@ Project(vals, probe) ==
    iter |-> vals, iter_ref_agrees |-> TRUE,
    ids |-> [i \in 1..Len(probe) |-> IdOf(vals, probe[i])],
    has |-> [i \in 1..Len(probe) |-> Has(vals, probe[i])],
-   get_id |-> [i \in 1..Len(probe) |-> IF Has(vals, probe[i]) THEN IdOf(vals, probe[i]) ELSE -2],   \* -2 = panic
+   \* get_id panics (-2) on an absent value; the harness calls it for present values and for the last probe value
+   \* only (-3 = not called)
+   get_id |-> [i \in 1..Len(probe) |-> IF Has(vals, probe[i]) THEN IdOf(vals, probe[i])
+                                         ELSE IF i = Len(probe) THEN -2 ELSE -3],
    at |-> vals, at_mut |-> vals, at_len |-> "panic"]
 
 \* ------------------------------------------------------------------ slots
